@@ -33,10 +33,15 @@ def _make_end(ca_key, ca_cert, end_key, node_id, serial):
     import asn1
     from cryptography import x509
     from cryptography.hazmat.primitives import hashes
-    enc = asn1.Encoder()
-    enc.start()
-    enc.write(node_id.encode('ascii'), asn1.Numbers.IA5String)
-    sans = [x509.OtherName(x509.oid.ObjectIdentifier(OID_ON_EID), enc.output())]
+    if node_id is None:
+        # a certificate of the same CA that names no node at all
+        sans = [x509.DNSName('host.example')]
+        node_id = 'no node id'
+    else:
+        enc = asn1.Encoder()
+        enc.start()
+        enc.write(node_id.encode('ascii'), asn1.Numbers.IA5String)
+        sans = [x509.OtherName(x509.oid.ObjectIdentifier(OID_ON_EID), enc.output())]
     return (x509.CertificateBuilder().subject_name(_name('end-entity %s' % node_id)).issuer_name(ca_cert.subject)
             .public_key(end_key.public_key()).serial_number(serial).not_valid_before(T0).not_valid_after(T0 + datetime.timedelta(days=36500))
             .add_extension(x509.BasicConstraints(ca=False, path_length=None), critical=True)
@@ -59,6 +64,7 @@ def get(node_id='dtn://s/'):
     wrong_key = ec.derive_private_key(0x777777777777777777777777777777, ec.SECP256R1())
     ca_cert = _make_ca(ca_key, 'verif test CA')
     out = dict(ca_key=ca_key, ca_cert=ca_cert, end_key=end_key, end_cert=_make_end(ca_key, ca_cert, end_key, node_id, 2),
+               end_cert_other=_make_end(ca_key, ca_cert, end_key, 'dtn://mallory/', 3), end_cert_noid=_make_end(ca_key, ca_cert, end_key, None, 4),
                wrong_ca_cert=_make_ca(wrong_key, 'some other CA'))
     _CACHE[node_id] = out
     return out
